@@ -259,7 +259,8 @@ Qed.
 
 Definition ca_erase (c : counting_attr) : counting_attr :=
   {| ca_counter := 0; ca_default := ca_default c; ca_vals := ca_vals c; ca_convs := ca_convs c;
-     ca_cann := ca_cann c; ca_hook := ca_hook c; ca_kw := ca_kw c; ca_init := ca_init c; ca_meta := ca_meta c |}.
+     ca_cann := ca_cann c; ca_hook := ca_hook c; ca_kw := ca_kw c; ca_init := ca_init c; ca_meta := ca_meta c;
+     ca_eqk := ca_eqk c |}.
 Definition ca_sim (a b : counting_attr) : Prop := ca_erase a = ca_erase b.
 
 Definition leb_agree (p q : Z * Z) : Prop := (fst p <=? fst q)%Z = (snd p <=? snd q)%Z.
@@ -449,7 +450,7 @@ Lemma from_ca_sim mc w1 w2 tys n a b :
   (forall m, mc w1 m = mc w2 m) -> ca_sim a b ->
   from_counting_attr mc w1 tys n a = from_counting_attr mc w2 tys n b.
 Proof.
-  intros Hmc H. unfold ca_sim, ca_erase in H. injection H as H1 H2 H3 H4 H5 H6 H7 H8.
+  intros Hmc H. unfold ca_sim, ca_erase in H. injection H as H1 H2 H3 H4 H5 H6 H7 H8 H9.
   unfold from_counting_attr. rewrite Hmc. congruence.
 Qed.
 
@@ -564,7 +565,7 @@ Definition mc_ok (mc : world -> metaref -> metaval) : Prop :=
   forall w w', w_metas w = w_metas w' -> forall m, mc w m = mc w' m.
 
 Lemma meta_copy_ok : mc_ok meta_copy.
-Proof. intros w w' H [ks|id]; cbn; congruence. Qed.
+Proof. intros w w' H [ks|id k]; cbn; congruence. Qed.
 
 Section WrapRel.
   Variables (K : list (Z * Z)) (c1 c2 : Z).
@@ -775,7 +776,7 @@ Qed.
 
 Lemma ca_add_validator_sim a b s : ca_sim a b -> ca_sim (ca_add_validator a s) (ca_add_validator b s).
 Proof.
-  unfold ca_sim, ca_erase, ca_add_validator; cbn. intros H. injection H as H1 H2 H3 H4 H5 H6 H7 H8.
+  unfold ca_sim, ca_erase, ca_add_validator; cbn. intros H. injection H as H1 H2 H3 H4 H5 H6 H7 H8 H9.
   congruence.
 Qed.
 
@@ -840,6 +841,12 @@ Proof.
     + split; [|split; reflexivity].
       constructor; cbn; try (split; assumption); [|assumption].
       unfold objs_sim; cbn. repeat split; assumption.
+  - split; [|split; reflexivity].
+    constructor; cbn; try (split; assumption); [|assumption].
+    unfold objs_sim; cbn. rewrite O4. repeat split; assumption.
+  - split; [|split; reflexivity].
+    constructor; cbn; try (split; assumption); [|assumption].
+    unfold objs_sim; cbn. rewrite O3. repeat split; assumption.
   - (* OCaValidator *)
     split; [|split; reflexivity].
     constructor; cbn.
@@ -861,7 +868,7 @@ Qed.
 
 Lemma plain_defs w o : is_def o = false -> is_cop o = false -> w_defs (step w o) = w_defs w.
 Proof.
-  destruct o as [a|a|c|l|ks|d|s ts tf|id s|id k|id s|id k v|id k|d b|m|c t]; try discriminate;
+  destruct o as [a|a|c|l|ks|d|s ts tf|id s|id k|id k|id|id s|id k v|id k|d b|m|c t]; try discriminate;
     intros _ _; cbn; try reflexivity.
   destruct (mem_str _ _); reflexivity.
 Qed.
@@ -927,7 +934,7 @@ Proof.
   - destruct (def_step_objs w o E) as (_ & _ & oc & H). rewrite H, app_nth1 by assumption.
     destruct o; try discriminate; reflexivity.
   - destruct (is_cop o) eqn:E2.
-    + destruct o as [| | | | | | | | | | | | | |c t0]; try discriminate. cbn [self_ops].
+    + destruct o as [| | | | | | | | | | | | | | | |c t0]; try discriminate. cbn [self_ops].
       rewrite cop_defs.
       destruct (nth_error (w_defs w) t0) as [oc|] eqn:E3.
       * apply (nth_error_nth' d) in E3 as [Hn Hl].
@@ -1014,7 +1021,7 @@ Proof.
       apply H. unfold n_defs. lia.
   - change (run w1 (o :: r)) with (run (step w1 o) r).
     destruct (is_cop o) eqn:E2.
-    + destruct o as [| | | | | | | | | | | | | |c t]; try discriminate.
+    + destruct o as [| | | | | | | | | | | | | | | |c t]; try discriminate.
       pose proof (IH k (step w1 (OClassOp c t)) w2 (sim_cop_left w1 w2 c t Hs)) as H.
       rewrite step_len in H. cbn in H. rewrite Nat.add_0_r in H. apply H. exact Hk.
     + change (run w2 (o :: ?x)) with (run (step w2 o) x).
@@ -1199,7 +1206,7 @@ Lemma step_noalias w o : Forall outcome_noalias (w_defs w) -> Forall outcome_noa
 Proof.
   intros H. destruct (is_def o) eqn:E.
   2:{ destruct (is_cop o) eqn:E2; [|now rewrite plain_defs].
-      destruct o as [| | | | | | | | | | | | | |c t]; try discriminate. rewrite cop_defs.
+      destruct o as [| | | | | | | | | | | | | | | |c t]; try discriminate. rewrite cop_defs.
       destruct (nth_error (w_defs w) t) as [oc|] eqn:E3; [|exact H].
       apply Forall_set_nth'; [|exact H]. apply cop_noalias.
       apply nth_error_In in E3. rewrite Forall_forall in H. auto. }
@@ -1302,7 +1309,7 @@ Definition frozen_base : base_info :=
                      ba_cann := None; ba_type := None; ba_hook := OsNone; ba_kw := false; ba_init := true; ba_meta := [] |}] |}.
 Definition ib (d : bool) (c : seqarg) (m : metaarg) : attrib_args :=
   {| aa_default := d; aa_v := SNone; aa_c := c; aa_h := HANone; aa_kw := false; aa_init := true;
-     aa_m := m |}.
+     aa_m := m; aa_eqk := EKNone |}.
 Definition body1 (a : attrib_args) (own_hash : bool) (base : base_info) : class_body :=
   {| cb_fields := [{| fd_name := "x"; fd_entry := EOwn a; fd_ann := true; fd_cv := false; fd_ty := TObj "int" |}];
      cb_hash := own_hash; cb_eq := false; cb_setattr := false; cb_init := false;
@@ -1415,12 +1422,12 @@ Lemma metadata_alias_refuted :
     let '(_, w1, o) := attrs_wrap_gen false meta_alias w c cls in
     observe (step w1 (OMetaSet 0 k)) o <> observe w1 o.
 Proof.
-  exists w_meta, s_plain, (cls1 w_meta (body1 (ib false SNone (MADict 0)) false obj_base)), "k2".
+  exists w_meta, s_plain, (cls1 w_meta (body1 (ib false SNone (MADict 0 MKDict)) false obj_base)), "k2".
   vm_compute. intros H; discriminate H.
 Qed.
 
 Example metadata_copied :
-  let cls := cls1 w_meta (body1 (ib false SNone (MADict 0)) false obj_base) in
+  let cls := cls1 w_meta (body1 (ib false SNone (MADict 0 MKDict)) false obj_base) in
   let '(_, w1, o) := attrs_wrap w_meta s_plain cls in
   observe (step w1 (OMetaSet 0 "k2")) o = observe w1 o /\
   exists f, observe w1 o = FOk f /\ map p_m (fp_fields f) = [["k1"]].
@@ -1459,7 +1466,7 @@ Definition sample_history : list op :=
    OApply 0 {| cb_fields := [{| fd_name := "x";
                                 fd_entry := EOwn {| aa_default := true; aa_v := SList 0; aa_c := SNone;
                                                     aa_h := HANone; aa_kw := false; aa_init := true;
-                                                    aa_m := MANone |};
+                                                    aa_m := MANone; aa_eqk := EKNone |};
                                 fd_ann := true; fd_cv := false; fd_ty := TObj "int" |}];
                cb_hash := false; cb_eq := false; cb_setattr := false; cb_init := false;
                cb_pre := false; cb_post := false; cb_base := obj_base |};
@@ -1547,3 +1554,41 @@ Example wrapper_annotations_per_class :
   = [Some [("x", Some (TObj "str"))]; Some [("x", None)];
      Some [("x", Some (TObj "typing.Optional[int]"))]].
 Proof. vm_compute. reflexivity. Qed.
+
+(** ** Round 4: metadata handed over as a live view; cmp_using keys *)
+
+(** "A MappingProxyType is read-only already, keep it": the class then follows the
+    caller's dict (only for proxies; dicts and other mappings are still copied). *)
+Lemma metadata_proxy_alias_refuted :
+  exists w c cls k,
+    let '(_, w1, o) := attrs_wrap_gen false meta_alias_proxy w c cls in
+    observe (step w1 (OMetaSet 0 k)) o <> observe w1 o /\
+    observe (step w1 (OMetaDel 0 "k1")) o <> observe w1 o.
+Proof.
+  exists w_meta, s_plain, (cls1 w_meta (body1 (ib false SNone (MADict 0 MKProxy)) false obj_base)), "k2".
+  vm_compute. split; intros H; discriminate H.
+Qed.
+
+Example metadata_any_kind_copied :
+  forallb (fun k =>
+    let cls := cls1 w_meta (body1 (ib false SNone (MADict 0 k)) false obj_base) in
+    let '(_, w1, o) := attrs_wrap w_meta s_plain cls in
+    match observe (run w1 [OMetaSet 0 "k2"; OMetaDel 0 "k1"]) o, observe w1 o with
+    | FOk a, FOk b => match map p_m (fp_fields a), map p_m (fp_fields b) with
+                      | [["k1"]], [["k1"]] => true | _, _ => false end
+    | _, _ => false
+    end) [MKDict; MKProxy; MKView] = true.
+Proof. vm_compute. reflexivity. Qed.
+
+(** Two classes whose eq keys come from cmp_using calls with the SAME function and
+    different require_same_type: each class compares by ITS OWN option, in either order
+    of definition. *)
+Example cmp_using_keys_per_class :
+  let body st := body1 {| aa_default := false; aa_v := SNone; aa_c := SNone; aa_h := HANone;
+                          aa_kw := false; aa_init := true; aa_m := MANone;
+                          aa_eqk := EKCmp "e1" st |} false obj_base in
+  let mixed ops := map (fun f => match f with FOk x => fp_mixed x | FExc _ => None end)
+                       (fingerprints (run w0 (ODecoS plain_args :: ops))) in
+  mixed [OApply 0 (body true); OApply 0 (body false)] = [Some false; Some true] /\
+  mixed [OApply 0 (body false); OApply 0 (body true)] = [Some true; Some false].
+Proof. vm_compute. split; reflexivity. Qed.
